@@ -1,12 +1,15 @@
 /* C14 - qmail-send.c injectbounce(): to whom, from whom, and when the bounce file goes.
  * Encoded from /repo: qmail-send.c injectbounce, fnmake2_bounce, fnmake_mess, fnmake_init;
- * quote.c (quote, quote2, quote_need, doit), fmtqfn.c, fmt_*.c, str_rchr.c, open_read.c,
- * substdio.c (substdio_fdbuf), stralloc units.
+ * fmtqfn.c, fmt_*.c, open_read.c, substdio.c (substdio_fdbuf), stralloc units.
  * Cut: getinfo() -> returns the symbolic envelope sender of the message (or fails);
  *      qmail_open/put/from/to/fail/close/qp (qmail.c) -> observing stubs: what the envelope
  *      and body handed to qmail-queue are, in which order, and what qmail_close returned
  *      (contract taken from qmail.c: "" iff qmail-queue exited 0 and no qmail_fail/put error);
- *      newfield_datemake -> fixed Date line.
+ *      newfield_datemake -> fixed Date line;
+ *      quote()/quote2() (quote.c) -> fixed text: they only format the From:/To:/Return-Path:
+ *      header lines of the notice, which the property does not speak about (C17 owns
+ *      quoting); with the real ones, whose output position is symbolic for every byte, the
+ *      SL=4 query needed 390k steps / 265 s.
  *
  * Oracle (property C14; envelopes(5) "bounced mail is sent back to the envelope sender
  * address ... doesn't list an envelope sender"; addresses(5) "#@[] is used as an envelope
@@ -53,7 +56,7 @@ unsigned char in_openfile_fail;     /* 1: bounce/N cannot be opened, 2: mess/N c
 unsigned char in_read_fail;         /* 1: read error in bounce/N, 2: in mess/N (after its first byte) */
 
 /* ---- observations */
-static int qq_opened, qq_failed, qq_closed, qq_close_ok;
+static int qq_open_called, qq_opened, qq_failed, qq_closed, qq_close_ok;
 static int n_from, n_to, n_unlink, unlink_ok;
 static char env_from[8], env_to[SL + DL + 2];
 static unsigned char pend[BL + ML];      /* bytes read from a file and not yet handed to qmail_put */
@@ -119,6 +122,8 @@ int getinfo(stralloc *sa, datetime_sec *dt, unsigned long id)
   return 1;
 }
 
+int quote(stralloc *out, stralloc *in) { return stralloc_copys(out, "q"); }
+int quote2(stralloc *out, char *s) { return stralloc_copys(out, "q@q"); }
 stralloc newfield_date = { "Date: 1 Jan 1970 00:00:00 -0000\n", 32, 33 };
 int newfield_datemake(datetime_sec t) { return 1; }
 time_t vf_time(time_t *t) { return 1000; }
@@ -129,7 +134,8 @@ void nomem(void) { CHECK(0, "no allocation failure inside the bound (arena)"); A
 
 int qmail_open(struct qmail *qq)
 {
-  CHECK(!qq_opened, "C14: at most one notice is queued per call");
+  CHECK(!qq_open_called, "C14: at most one notice is queued per call");
+  qq_open_called = 1;
   CHECK(!str_is((char *) in_sender, "#@[]"), "C14: a failing double bounce is discarded, nothing is queued");
   if (in_openqq_fail) return -1;
   qq_opened = 1;
@@ -281,7 +287,6 @@ void vmain(void)
    * the sender or doublebounceto; with equal constant bytes behind both terminators the scan
    * ends at the longer one instead of running to STRMAX on an out-of-bounds branch */
   static char dblbuf[64];
-  static stralloc warm;
   sym_inputs();
   for (i = 0; i < SL; ++i) ASSUME(in_sender[i] != 0);
   for (i = 0; i < DL; ++i) ASSUME(in_dbl[i] != 0);
@@ -296,13 +301,9 @@ void vmain(void)
 #endif
   for (i = 0; i <= DL; ++i) dblbuf[i] = (char) in_dbl[i];
   doublebounceto.s = dblbuf; doublebounceto.len = DL + 1; doublebounceto.a = DL + 1;
-  bouncefrom.s = "MAILER-DAEMON"; bouncefrom.len = 13; bouncefrom.a = 14;
+  bouncefrom.s = "md"; bouncefrom.len = 2; bouncefrom.a = 3;     /* short: quote_need()'s loops are shared with the sender */
   bouncehost.s = "bh"; bouncehost.len = 2; bouncehost.a = 3;
   fnmake_init();
-  /* first use of quote.c's static scratch stralloc happens here, on the common path, so
-   * that its arena slot (and every later one) is a concrete object and not a choice
-   * between slots depending on which branch used it first */
-  CHECK(quote2(&warm, "w@w") == 1, "quote2 works");
 
   rc = injectbounce(BOUNCE_ID);
 
@@ -326,12 +327,13 @@ void vmain(void)
     WITNESS("double_bounce_discarded");
     return;
   }
-  if (form == F_UNSPEC && !qq_opened && !in_openqq_fail) {
+  if (form == F_UNSPEC && !qq_open_called) {
     /* pre@host = "#@[]": discarded like a double bounce - accepted */
     CHECK(n_unlink == 1 && rc == unlink_ok, "discarded: bounce/N is removed");
     WITNESS("verp_of_double_bounce_discarded");
     return;
   }
+  CHECK(qq_open_called, "C14: a notice is queued for every sender but #@[]");
   if (in_openqq_fail) {
     CHECK(rc == 0 && !n_unlink && !n_from, "C14: qmail-queue cannot be started: try later, bounce/N stays");
     WITNESS("qq_not_started");
